@@ -113,7 +113,58 @@ def small_scope(stride, offset):
     yield from exhaustive(3, 2, stride=stride, offset=offset)
 
 
+def acyclic(d):
+    """the item graph (unwrap results, elaborate payloads, context children) has no cycle:
+    frames_gen's rank order does not cover the own frame of a generator object"""
+    edges = {}
+
+    def key(it):
+        return (it[0], it[1])
+    for o, s in d["unwrap"].items():
+        k = ("O", int(o))
+        if s[0] == "one":
+            edges.setdefault(k, []).append(key(s[1]))
+        elif s[0] in ("seq", "iter"):
+            edges.setdefault(k, []).extend(key(i) for i in s[1] if i)
+        elif s[0] == "gen":
+            edges.setdefault(k, []).append(("F", s[1]))
+            if s[2]:
+                edges[k].append(key(s[2]))
+    for f, s in d["elab"].items():
+        k = ("F", int(f))
+        pl = [s[1]] if s[0] == "one" else (s[1] if s[0] == "seq" else [])
+        edges.setdefault(k, []).extend(key(r[1]) for r in pl if r[0] == "I")
+    for f, s in d["ctxs"].items():
+        if s[0] == "ok":
+            for c in s[1]:
+                fs = d["fill"].get(str(c), ["ok", []])
+                if fs[0] == "ok":
+                    edges.setdefault(("F", int(f)), []).extend(key(i) for i in fs[1])
+    state = {}
+
+    def visit(n):
+        if state.get(n) == 1:
+            return n[0] == "O" and edges.get(n) == [n]      # the linear self-loop is allowed
+        if state.get(n) == 2:
+            return True
+        state[n] = 1
+        for m in edges.get(n, []):
+            if m == n and n[0] == "O" and edges[n] == [n]:
+                continue
+            if not visit(m):
+                return False
+        state[n] = 2
+        return True
+    return all(visit(n) for n in list(edges))
+
+
 def make_inputs(tier, seed):
+    for d in _make_inputs(tier, seed):
+        if acyclic(d):
+            yield d
+
+
+def _make_inputs(tier, seed):
     rng = random.Random(seed * 7919 + 5)
     quick = tier == "quick"
     for b in specials():
@@ -124,14 +175,16 @@ def make_inputs(tier, seed):
     nb = 40 if quick else 400
     for i in range(nb):
         wc = i % 2 == 0
-        b = G.gen_case(rng, nf=rng.choice([3, 4, 5]), no=rng.choice([3, 4, 5]), with_ctx=wc, gens=(i % 3 == 0))
+        b = G.gen_case(rng, nf=rng.choice([3, 4, 5]), no=rng.choice([3, 4, 5]), with_ctx=wc, gens=(not wc and i % 3 == 1))
+        if not acyclic(b):
+            continue
         yield b
         yield from sweep_single(b)
         if i % (8 if quick else 4) == 0:
             yield from sweep_pairs(b, rng=rng, sample=0.5 if quick else 1.0)
     # random multi-fault sets
     for _ in range(600 if quick else 8000):
-        yield G.gen_case(rng, nf=5, no=5, faults=rng.randrange(1, 5), with_ctx=rng.random() < 0.6, gens=rng.random() < 0.3)
+        yield G.gen_case(rng, nf=5, no=5, faults=rng.randrange(1, 5), **rng.choice([dict(with_ctx=True), dict(with_ctx=True), dict(gens=True), dict()]))
     # small scope of C10 (3 objects x 2 frames, all result alphabets): every single fault, all pairs
     for b in small_scope(1499 if quick else 41, seed):
         yield from sweep_single(b)
